@@ -28,7 +28,7 @@ from __future__ import annotations
 import ast
 import json
 
-from . import bexp, progs, pysem
+from . import a2a, bexp, progs, pysem
 from .common import Ctx, Result
 
 LEVEL = "proof"
@@ -72,6 +72,9 @@ class Lib:
         from qlasskit.types.qtype import Qtype
 
         self.q, self.QF, self.QintImp, self.Qtype = qlasskit, QF, QintImp, Qtype
+        from qlasskit.ast2ast import ast2ast as real_ast2ast
+
+        self.ast2ast = real_ast2ast
         self.profiles = {"fast": boolopt.fastOptimizer, "default": boolopt.defaultOptimizer}
         self.tree = None
         self.consts = []
@@ -674,6 +677,7 @@ class Case:
         self.expected = None    # per row list of expected bits (None = unclaimed)
         self.exact = None       # per row (exact python value, k) of the oracle for bool / Qint returns, else None
         self.cpython_rows = 0   # rows on which the oracle's exact value was cross-checked against CPython itself
+        self.a2a_real = None    # the real ast2ast on a fresh parse of the source: serialised tree or exception
 
 
 def observe(lib, tag, src, profiles=("fast", "default"), budget=15):
@@ -708,6 +712,7 @@ def _observe(lib, tag, src, profiles=("fast", "default")):
         c.oracle = f"malformed:{e}"
     except SyntaxError as e:
         c.oracle = f"malformed:syntax {e}"
+    c.a2a_real = a2a.real_result(lib.ast2ast, src)
     for p in profiles:
         c.code[p] = lib.compile(src, p)
     oks = {p: c.code[p]["ok"] for p in profiles}
@@ -830,9 +835,34 @@ def settle(ctx, res, cases, stats):
         # the Lean reference semantics (QV.Sem.semProg) of the same tree
         sem_idx.append((ci, len(reqs)))
         reqs.append(dict(op="c01.semw", args=r["args"], ret=r["ret"], body=r["body"]))
+    # the Lean model of ast2ast on the *source* tree (before any pass) against the real pass
+    a2a_idx = []
+    for ci, c in enumerate(cases):
+        if c.a2a_real is None:
+            continue
+        r = a2a.source_request(c.src)
+        if r is not None:
+            typed = None
+            if c.prog is not None:
+                targs = [[n, pysem.ty_json(t)] for n, t in c.prog.args]
+                tret = pysem.ty_json(c.prog.ret)
+                if tret is not None and all(t is not None for _, t in targs):
+                    typed = (targs, tret)
+                    r["targs"], r["ret"] = targs, tret
+            a2a_idx.append((ci, len(reqs), typed is not None))
+            reqs.append(r)
+            if typed is not None:
+                # the Lean source-level semantics (QV.A2A.execProg) of the source tree
+                reqs.append(dict(op="c01.semsrc", args=typed[0], ret=typed[1], body=r["body"]))
     replies = ctx.model(reqs) if reqs else []
     model_of = {}
     if replies is not None:
+        for ci, ri, typed in a2a_idx:
+            first_ = cases[ci].code.get(cases[ci].main) or {}
+            check_a2a(res, case_json(cases[ci]), replies[ri], cases[ci].a2a_real, first_.get("tree"), stats,
+                      accepted=bool(first_.get("ok")))
+            if typed:
+                check_semsrc(res, cases[ci], replies[ri + 1], stats)
         for ci, ri in idx:
             c = cases[ci]
             model_of[ci] = (replies[ri], replies[ri + 1] if suspicious(c) else None)
@@ -922,6 +952,104 @@ def settle(ctx, res, cases, stats):
         else:
             res.violation(cj, what, free=c.free, missing=c.missing, accept=c.accept_disagree,
                           events=(m or {}).get("events"))
+
+
+def a2a_stats(stats):
+    return stats.setdefault("ast2ast", dict(programs=0, inside_model=0, agree_tree=0, agree_exception=0, outside_model=0,
+                                            differ=0, rules={}, outside_reasons={}, exceptions={}))
+
+
+def check_semsrc(res, c, sem, stats):
+    """the Lean source-level semantics with control flow (QV.A2A.execProg after the constant folding of the source;
+    the one ast2ast_if_preserved / C01_if / C01_for speak of) against the python oracle on the same source text:
+    every bit pysem claims must be its bit.  Rows / programs where it gives no meaning are counted, never compared."""
+    st = a2a_stats(stats)
+    for k_ in ("semsrc_programs", "semsrc_defined_programs", "semsrc_rows", "semsrc_claimed_bits"):
+        st.setdefault(k_, 0)
+    if sem is None or "driver_error" in sem:
+        res.disagree(case_json(c), "Lean source-level semantics: driver error", model=sem)
+        return
+    rows = sem.get("rows")
+    st["semsrc_programs"] += 1
+    if rows is None or c.expected is None or c.oracle != "ok" or len(c.expected) != len(rows):
+        return
+    if any(r is not None for r in rows):
+        st["semsrc_defined_programs"] += 1
+    for k, (exp, got) in enumerate(zip(c.expected, rows)):
+        if got is None:
+            continue
+        st["semsrc_rows"] += 1
+        bad = len(got) != len(exp) or [i for i, e_ in enumerate(exp) if e_ is not None and (got[i] == "1") != e_]
+        st["semsrc_claimed_bits"] += sum(1 for e_ in exp if e_ is not None)
+        if bad:
+            res.disagree(case_json(c, row=k, args=row_values(c.prog, k)),
+                         "Lean source-level semantics (execProg) differs from the python oracle on a claimed bit",
+                         model=got, expected="".join("?" if e_ is None else ("1" if e_ else "0") for e_ in exp))
+            return
+
+
+def check_a2a(res, cj, m, real, captured, stats, accepted=None):
+    """the Lean model of `ast2ast` (QV.A2A.ast2ast, driver op c01.ast2ast) on the source tree against the real pass on a
+    fresh parse of the same text: same exception (class, and the message contains the model's key) or the same
+    tree after the canonical serialisation of harness/a2a.py (every node), and the same Front syntax (`toP` of the
+    model = `pexp` / `stmt_json` here).  `outside` = the program uses a rewrite the model leaves to the real pass."""
+    st = a2a_stats(stats)
+    st["programs"] += 1
+    front = None
+    if "tree" in real:
+        front = [stmt_json(s) for s in real["tree"].body]
+        if captured is not None and [a2a.ss(s) for s in captured.body] != real["body"]:
+            res.disagree(cj, "ast2ast: the tree handed to translate_ast differs from a direct call of the real ast2ast "
+                             "on the same source text")
+    v, d = a2a.compare(m, real, front)
+    if v == "outside":
+        st["outside_model"] += 1
+        key = d.split(" ")[0] + " " + " ".join(d.split(" ")[1:3])
+        st["outside_reasons"][key] = st["outside_reasons"].get(key, 0) + 1
+        return
+    st["inside_model"] += 1
+    if v == "differ":
+        st["differ"] += 1
+        res.disagree(cj, "ast2ast: the Lean model of the rewriting pass differs from the real pass: " + d.get("what", ""),
+                     **{k: x for k, x in d.items() if k != "what"})
+        return
+    if v == "agree-exception":
+        st["agree_exception"] += 1
+        st["exceptions"][d] = st["exceptions"].get(d, 0) + 1
+    else:
+        st["agree_tree"] += 1
+    for r in (m.get("rules") or []):
+        st["rules"][r] = st["rules"].get(r, 0) + 1
+    cls = m.get("class")
+    if cls is not None:
+        tc = st.setdefault("theorem_classes", dict(typed_programs=0, straightLine=0, guardedLine=0, okProg=0,
+                                                    C01_if_all_hypotheses=0, of_which_with_if=0, of_which_with_for=0,
+                                                    of_which_straight_line_source=0))
+        tc["typed_programs"] += 1
+        tc["straightLine"] += bool(cls["straightLine"])
+        tc["guardedLine"] += bool(cls["guardedLine"])
+        tc["okProg"] += bool(cls["okProg"])
+        if cls["okProg"] and cls["stable"] and cls["guardedLine"] and accepted:
+            tc["C01_if_all_hypotheses"] += 1
+            tc["of_which_with_if"] += bool(cls["hasIf"])
+            tc["of_which_with_for"] += bool(cls["hasFor"])
+            tc["of_which_straight_line_source"] += not (cls["hasIf"] or cls["hasFor"])
+
+
+def run_a2a_forms(ctx, lib, res, stats):
+    """one program per rewriting rule / quirk / exception of ast2ast: correspondence only"""
+    reqs, cases = [], []
+    for tag, src in a2a.A2A_FORMS:
+        r = a2a.source_request(src)
+        if r is not None:
+            reqs.append(r)
+            cases.append((tag, src))
+    replies = ctx.model(reqs)
+    if replies is None:
+        return
+    for (tag, src), m in zip(cases, replies):
+        check_a2a(res, dict(tag="a2a:" + tag, src=src), m, a2a.real_result(lib.ast2ast, src), None, stats)
+    a2a_stats(stats)["rewrite_forms"] = len(cases)
 
 
 def check_semw(res, c, sem, m, aq, stats):
@@ -1244,10 +1372,13 @@ def run(ctx: Ctx) -> Result:
                 settle(ctx, res, batch, stats)
                 batch = []
         settle(ctx, res, batch, stats)
+        run_a2a_forms(ctx, lib, res, stats)
     res.extra["c01"] = stats
     res.assumptions.append(
-        "ast2ast (the AST normaliser) has no Lean model: the model is fed the tree the real ast2ast produced; ast2ast is "
-        "judged only by the harness oracle (harness/pysem.py) on the source text")
+        "ast2ast (the AST normaliser): its statement-level rewriting (if / for / assignment forms, constant folding of "
+        "int / bool constants) has a Lean model (QV/Model/Ast2Ast.lean) compared tree for tree with the real pass on every "
+        "program inside it; builtin calls, variable subscripts and the type-annotation pass are left to the real pass "
+        "(the translator model is fed the tree the real ast2ast produced) and judged by the harness oracle on the source text")
     res.assumptions.append(
         "sympy's And/Or/Not/Xor/ITE constructors and simplify_logic are taken to preserve the function of an expression; "
         "checked on every program of the run by evaluating the code's expressions with the harness' own evaluator")
